@@ -3,6 +3,7 @@ CONSTANT WriterSets <- W2or3
 CONSTANT InitLens = {0, 1, 2}
 CONSTANT InitTombs = {FALSE, TRUE}
 CONSTANT Modes = {FALSE, TRUE}
+CONSTANT AheadSets <- NoAhead
 CONSTANT Kinds = {"put", "push", "del"}
 SPECIFICATION SimSpec
 INVARIANT BehaviourExport
